@@ -369,7 +369,9 @@ Fixpoint compile_expression (fuel : nat) (l : lambda) (tail : bool) (e : cell) {
                    if negb (is_nil r2) then fail E_OTHER else
                    dom v <- lift (car_e r1);
                    dom l1 <- compile_expression f l false v; ret (l1, target)
-               | CPair name _ => dom l1 <- compile_lambda l e true; ret (l1, name)
+               | CPair name _ =>
+                   if negb (is_symbol name) then fail E_OTHER else
+                   dom l1 <- compile_lambda l e true; ret (l1, name)
                | _ => fail E_OTHER
                end);
             if is_primitive_symbol symbol then fail E_OTHER else store_to l1 symbol
